@@ -304,11 +304,13 @@ std::string run(int n, const std::string& opsw)
                     }
                 }
             }
-            else if (f[0] == "ld" || f[0] == "lq" || f[0] == "lm")
+            else if (f[0] == "ld" || f[0] == "lq" || f[0] == "lm" || f[0] == "lg")
             {
-                // ld/lq: load on a named lvalue;  lm: on std::move(named) — the library object must stay an owner
+                // ld/lq: load on a named lvalue;  lm: on std::move(named) — the library object must stay an owner;
+                // lg: the public symbol constructor on the handle handed out by get():  symbol<T>(lib.get(), name)
                 const bool quiet = f[0] == "lq";
                 const bool xvalue = f[0] == "lm";
+                const bool viaget = f[0] == "lg";
                 std::size_t i = arg(1), j = arg(2);
                 int s = static_cast<int>(arg(3));
                 if (valid(i) && valid(j) && sl[i].empty() && sl[j].lib && sl[j].lib->get() != nullptr)
@@ -323,7 +325,8 @@ std::string run(int n, const std::string& opsw)
                     }
                     try
                     {
-                        if (xvalue) sl[i].sym.emplace(std::move(*sl[j].lib).load<int(int)>(sym_name(s)));
+                        if (viaget) sl[i].sym.emplace(Sym(sl[j].lib->get(), sym_name(s)));
+                        else if (xvalue) sl[i].sym.emplace(std::move(*sl[j].lib).load<int(int)>(sym_name(s)));
                         else sl[i].sym.emplace(sl[j].lib->load<int(int)>(sym_name(s)));
                         sl[i].h = h;
                         r = "ok";
